@@ -191,7 +191,27 @@ def _build(case, env, which):
             fp = [cfin.mk(s) for s in case["final_list"]]
         return finalize_wrapper(plan, fp, pause_for_debug=pause), rec
     if w == "finalize_dec":
-        return finalize_decorator(mk_final)(lambda: plan)(), rec
+        if not case.get("reuse"):
+            return finalize_decorator(mk_final)(lambda: plan)(), rec
+        # the decorated plan function is used twice ("final_plan ... can be used multiple times"): a warm-up
+        # invocation with a trivial plan and a trivial cleanup is run to completion first
+        phase = {"warm": True}
+
+        def warm_gen():
+            yield object()
+
+        def final_factory():
+            return warm_gen() if phase["warm"] else mk_final()
+
+        decorated = finalize_decorator(final_factory)(lambda: warm_gen() if phase["warm"] else plan)
+        g0 = decorated()
+        try:
+            while True:
+                g0.send(None)
+        except StopIteration:
+            pass
+        phase["warm"] = False
+        return decorated(), rec
     return (
         contingency_wrapper(
             plan,
@@ -303,6 +323,7 @@ def _strategy():
                 case["final"] = small(draw, "fin")
         elif w == "finalize_dec":
             case["final"] = small(draw, "fin")
+            case["reuse"] = draw(st.booleans())
         else:
             case["pause"] = draw(st.integers(0, 4)) == 0
             case["auto_raise"] = draw(st.booleans())
